@@ -126,6 +126,8 @@ func (m *mem) RepoGet(ctx context.Context, repoStr string) (Repo, error) {
 		blobs: map[digest.Digest]*memRepoBlob{},
 		log:   m.log,
 		conf:  m.conf,
+		// blobs of a backing directory may be younger than the repo object, the GC passes visit a repo for a grace period after it was opened
+		timeMod: time.Now(),
 	}
 	uploadCacheOpt := cache.Opts[string, *memRepoUpload]{}
 	if m.conf.Storage.GC.RepoUploadMax > 0 {
